@@ -590,6 +590,13 @@ def fold(t):
                 return ("const", ("bytes", bytes([_cint(a[1]) & 0xFF]) * int(a[2]), "&[u8]"))
             if isinstance(a, tuple) and a[0] == "agg" and a[1] == "array" and all(_cint(x) is not None for x in a[4]):
                 return ("const", ("bytes", bytes([_cint(x) & 0xFF for x in a[4]]), "&[u8]"))
+    elif k == "call" and len(t[2]) == 1 and t[1].endswith("Result<T, E> as std::ops::Try>::branch"):
+        a = t[2][0]
+        if isinstance(a, tuple) and a[0] == "agg" and a[1] == "adt" and a[2] == "std::result::Result":
+            if a[3] == "Ok":
+                return ("agg", "adt", "std::ops::ControlFlow", "Continue", a[4], ("0",))
+            if a[3] == "Err":
+                return ("agg", "adt", "std::ops::ControlFlow", "Break", (a,), ("0",))
     elif k == "call" and len(t[2]) == 1 and t[1].endswith("slice::<impl [T]>::len"):
         a = t[2][0]
         if isinstance(a, tuple) and a[0] == "const" and a[1][0] == "bytes":
